@@ -320,3 +320,15 @@ End Spec.
 
 (* sampled count of a sequence of received datapoints: SampledCount += 1.0 / m.Rate *)
 Definition sampled_count (rates : list Qc) : Qc := qsum (map Qcinv rates).
+
+(* what MetricMap.Receive accumulates for one timer series from its datapoints (value, rate) in
+   arrival order: Values = append(Values, value), SampledCount += 1.0 / rate *)
+Definition receive_all (pts : list (Qc * Qc)) : list Qc * Qc :=
+  fold_left (fun acc vr => (fst acc ++ [fst vr], (snd acc + / snd vr)%Qc)) pts ([], 0%Qc).
+
+(* a report up to the order of its Values (they are a multiset): Values sorted *)
+Definition sorted_values (t : timer Qc) : timer Qc :=
+  {| t_count := t_count t; t_sampled := t_sampled t; t_persec := t_persec t; t_mean := t_mean t;
+     t_median := t_median t; t_min := t_min t; t_max := t_max t; t_var := t_var t;
+     t_sum := t_sum t; t_sumsq := t_sumsq t; t_values := qsort (t_values t);
+     t_pcts := t_pcts t; t_tags := t_tags t; t_hist := t_hist t |}.
